@@ -169,6 +169,20 @@ pub fn variable_free(r: &mut Rng) -> LinearModel {
     LinearModel::new_from_parts(vec![], opt, r.range(-3, 3) as f64, rows, vec![], Default::default())
 }
 
+/// user variables whose names collide with the prefixes `as_lp_solution` / the standardizer use internally
+pub fn prefixed_names(r: &mut Rng) -> LinearModel {
+    use rooc::{Comparison, OptimizationType, VariableType};
+    let pool = ["$sl_x", "$px", "$mx", "$a_1", "$su_0", "x", "$p", "y"];
+    let mut names: Vec<&str> = vec![];
+    for _ in 0..1 + r.below(3) { let n = *r.pick(&pool); if !names.contains(&n) { names.push(n); } }
+    let mut m = LinearModel::new();
+    for n in &names { m.add_variable(n, VariableType::NonNegativeReal(0.0, f64::INFINITY)); }
+    let k = names.len();
+    m.add_constraint((0..k).map(|_| 1.0 + r.below(2) as f64).collect(), Comparison::GreaterOrEqual, 1.0 + r.below(3) as f64);
+    m.set_objective((0..k).map(|_| 1.0 + r.below(3) as f64).collect(), OptimizationType::Min);
+    m
+}
+
 pub fn generate(seed: u64, n: usize, thorough: bool, _corpus: Option<&str>) -> Vec<Case> {
     let mut r = Rng::new(seed);
     let mut cases = vec![];
@@ -189,6 +203,10 @@ pub fn generate(seed: u64, n: usize, thorough: bool, _corpus: Option<&str>) -> V
         helper_cases(&mut r, &lm, &mut cases);
         assign_map_case(&mut r, &mut cases);
         as_lp_solution_case(&mut r, &mut cases);
+        if i % 10 == 5 {
+            let lm = prefixed_names(&mut r);
+            solver_cases(&lm, &["prefixed-names".to_string()], "prefixed-names", &variants, &mut cases);
+        }
         if i % 10 == 0 {
             let lm = variable_free(&mut r);
             solver_cases(&lm, &["variable-free".to_string()], "variable-free", &variants, &mut cases);
